@@ -787,7 +787,7 @@ func runC03(b *runner.Batch) {
 func init() {
 	runner.Register(&runner.Check{
 		ID: "C03", Level: "exploration",
-		Rule: "The method list is read from the manifests compiled from the working tree (non-safe callable methods of 11 contracts). Each method gets a freshly prepared world (all contracts deployed, live container with roster, candidates, names, deposits) and is executed under every signer set of its requirement kind {nobody, stranger, single committee member, Majority where the Alphabet is required and vice versa, the named key without the Alphabet, the Alphabet without the named key, another key, the appointed admin of the name without its owner, the Inner Ring majority dismissed by a re-designation in the previous block, ...}, insufficient sets first, the sufficient one last, on committees of 3, 1 and 4 (quick) / 3, 1, 4, 7 and 6 (thorough); on even sizes half of the committee (n/2 of n) is a further insufficient set. Documented alternative witnesses (the appointed admin for NNS record methods, the Inner Ring majority designated in the previous block) are run as further sufficient sets; an insufficient set that reaches an update's version check counts as having passed the witness gate. Classification per transaction: effect (HALT with storage diff or notification) / inert (FAULT, rejected, or HALT without diff, notification or native token transfer). Safe methods are called inside a fully witnessed transaction; verify methods are invoked directly and used as contract witnesses of real transactions. distinct = (method, signer set, outcome, committee size).",
+		Rule: "The method list is read from the manifests compiled from the working tree (non-safe callable methods of 11 contracts). Each method gets a freshly prepared world (all contracts deployed, live container with roster, candidates, names, deposits) and is executed under every signer set of its requirement kind {nobody, stranger, single committee member, Majority where the Alphabet is required and vice versa, the named key without the Alphabet, the Alphabet without the named key, another key, the appointed admin of the name without its owner, the Inner Ring majority dismissed by a re-designation in the previous block, ...}, insufficient sets first, the sufficient one last, on committees of 3, 1 and 4 (quick) / 3, 1, 4, 7 and 6 (thorough); on even sizes half of the committee (n/2 of n) is a further insufficient set. Every sufficient set is also run with scopes that do not reach the call (each signer in turn with scope None, also standing as the transaction's sender; all signers restricted to another address): insufficient. Methods that name an object get further argument lists naming objects that exist already (registered containers with and without meta-on-chain, the stored candidate, the existing lock account) under the insufficient sets. Documented alternative witnesses (the appointed admin for NNS record methods, the Inner Ring majority designated in the previous block) are run as further sufficient sets; an insufficient set that reaches an update's version check counts as having passed the witness gate. Classification per transaction: effect (HALT with storage diff or notification) / inert (FAULT, rejected, or HALT without diff, notification or native token transfer). Safe methods are called inside a fully witnessed transaction; verify methods are invoked directly and used as contract witnesses of real transactions. distinct = (method, signer set, outcome, committee size).",
 		Assumptions: []string{"neo-go v0.107.0 VM, ledger and native contracts are the trusted base", "contracts are compiled at check time from /repo/contracts",
 			"update with sufficient witnesses is judged by reaching the version check (same-version fault); the successful upgrade itself is exercised by C16", "a method without a row in the table makes the run inconclusive"},
 		Batches: func(tier string) int { return 110 * len(sizes(tier)) }, // room for methods added to a manifest
